@@ -10,7 +10,7 @@ set_empty, add, iteration and pickle restart.  Reference: list + dict.
 
 import pickle
 
-from ..core import Violation
+from ..core import Violation, pickle_roundtrip
 from .. import seams  # noqa: F401
 
 from comb_spec_searcher.class_db import ClassDB
@@ -258,7 +258,7 @@ def execute(R, ctx):
             if got != list(range(len(keys))):
                 raise Violation("iteration-wrong", f"iter(db) = {got}, expected 0..{len(keys)-1}")
         elif k == "restart":
-            db2 = pickle.loads(pickle.dumps(db))
+            db2 = pickle_roundtrip(db, "C15")
             if not db2 == db:
                 raise Violation("restart-unequal", "ClassDB != its pickle round trip")
             db = db2
